@@ -276,7 +276,7 @@ var checkC20Book = def("C20/books", func(c bookCase) error {
 	if err != nil {
 		return fmt.Errorf("NewBook refuses legal lines %v: %v", c.Lines, err)
 	}
-	positions := 0
+	positions, twins := 0, 0
 	for _, l := range c.Lines {
 		g := oracle.NewGame(oracle.MustFEN(oracle.InitialFEN))
 		for i, mv := range l {
@@ -300,6 +300,16 @@ var checkC20Book = def("C20/books", func(c bookCase) error {
 			}
 			g.Push(om)
 			positions++
+			// the twin of a book position: same men, side and rights, but no en-passant target (reached
+			// by another move order). Whatever the book offers there must be legal THERE.
+			if g.Cur().Pos.EP >= 0 {
+				tw := *g.Cur()
+				tw.Pos.EP = -1
+				if _, err := bookRepliesLegal("engine.NewBook (looked up with the en-passant twin of a book position)", book, oracle.NewGame(tw)); err != nil {
+					return err
+				}
+				twins++
+			}
 		}
 		if _, err := bookRepliesLegal("engine.NewBook", book, g); err != nil {
 			return err
@@ -331,6 +341,21 @@ var checkC20Book = def("C20/books", func(c bookCase) error {
 	if len(c.BadLine) > 0 {
 		labels = append(labels, "illegal-line-refused")
 	}
+	for _, l := range c.Lines {
+		g := oracle.NewGame(oracle.MustFEN(oracle.InitialFEN))
+		for _, mv := range l {
+			if om, ok := g.Cur().Pos.FindMove(mv); ok {
+				if om.Kind == oracle.EnPassant {
+					labels = append(labels, "line-with-en-passant-capture")
+				}
+				g.Push(om)
+			}
+		}
+	}
+	if twins > 0 {
+		labels = append(labels, "en-passant-twin-looked-up")
+	}
+	labels = dedup(labels)
 	stats.Case("C20/books", stats.FP(fmt.Sprint(c.Lines), fmt.Sprint(c.BadLine)), positions > 0, labels...)
 	return nil
 })
@@ -371,6 +396,19 @@ func TestC20_books(t *testing.T) {
 			gc, _ := gen.Play(t, oracle.MustFEN(oracle.InitialFEN), 10, pol)
 			if len(gc.Moves) > 0 {
 				c.Lines = append(c.Lines, gc.Moves)
+			}
+		}
+		// a line ending in an en-passant capture
+		if rapid.Bool().Draw(t, "epline") {
+			f := rapid.IntRange(0, 7).Draw(t, "epfile")
+			a := f + rapid.SampledFrom([]int{-1, 1}).Draw(t, "epside")
+			if a >= 0 && a <= 7 {
+				fl, al := string(rune('a'+f)), string(rune('a'+a))
+				wait := rapid.SampledFrom([]string{"g8f6", "b8c6", "g8h6", "b8a6"}).Draw(t, "wait")
+				line := []string{fl + "2" + fl + "4", wait, fl + "4" + fl + "5", al + "7" + al + "5", fl + "5" + al + "6"}
+				if _, err := (gen.GameCase{FEN: oracle.InitialFEN, Moves: line}).Build(); err == nil {
+					c.Lines = append(c.Lines, line)
+				}
 			}
 		}
 		// transposition: the same four moves in another order
